@@ -3,7 +3,9 @@
 //! `vm_memory::verif::set_xen_ioctl`).  The "device" is a memfd: the library mmaps the device fd at
 //! the offset (`index`) the map ioctl hands out; the emulation hands out index = grant reference *
 //! page size, so guest page g lives at byte g * page of the memfd and every byte the library writes
-//! can be read back with pread (independent of the accessors), and logs every map / unmap request.
+//! can be read back with pread (independent of the accessors), and logs every map / unmap request - a map request
+//! with its FULL list of (domid, reference): page i of a window has to be the page named by reference i.  Regions
+//! are built with a non-zero domid (`case_domid`).
 //! Opcodes 15-18 are the stream entry points with a DESCRIPTOR as the other end (read_volatile_from /
 //! read_exact_volatile_from out of a memfd holding known bytes, write_volatile_to / write_all_volatile_to into an
 //! empty memfd): the transfer is a read(2)/write(2) on the guarded pointer, so the window must stay mapped across
@@ -40,22 +42,33 @@ pub enum DevEv {
     Foreign { count: u64, ok: bool },
 }
 pub struct Dev {
+    /// the full (domid, reference) list of every ACCEPTED map request, in the order of the Map events of `log`
+    pub refs: Vec<Vec<(u32, u32)>>,
     pub log: Vec<DevEv>,
     pub live: Vec<(u64, u64)>,
     pub fail: bool,
     pub page: u64,
 }
-pub static DEV: Mutex<Dev> = Mutex::new(Dev { log: Vec::new(), live: Vec::new(), fail: false, page: 4096 });
+pub static DEV: Mutex<Dev> = Mutex::new(Dev { refs: Vec::new(), log: Vec::new(), live: Vec::new(), fail: false, page: 4096 });
 
 pub fn dev_reset(fail: bool) {
     let mut d = DEV.lock().unwrap();
     d.log.clear();
+    d.refs.clear();
     d.live.clear();
     d.fail = fail;
     d.page = unsafe { libc::sysconf(libc::_SC_PAGESIZE) } as u64;
 }
 pub fn dev_take() -> Vec<DevEv> {
-    std::mem::take(&mut DEV.lock().unwrap().log)
+    let mut d = DEV.lock().unwrap();
+    d.refs.clear();
+    std::mem::take(&mut d.log)
+}
+/// like dev_take, with the reference list of every Map event
+pub fn dev_take_named() -> (Vec<DevEv>, Vec<Vec<(u32, u32)>>) {
+    let mut d = DEV.lock().unwrap();
+    let r = std::mem::take(&mut d.refs);
+    (std::mem::take(&mut d.log), r)
 }
 pub fn dev_live() -> u64 {
     DEV.lock().unwrap().live.len() as u64
@@ -80,6 +93,22 @@ pub fn dev_install() {
                         return -1;
                     }
                     let gref = std::ptr::read_unaligned(arg.add(20) as *const u32) as u64;
+                    // the whole request: refs[i] = { domid u32 @16+8i, reference u32 @20+8i }
+                    let refs: Vec<(u32, u32)> = (0..count as usize)
+                        .map(|i| {
+                            (
+                                std::ptr::read_unaligned(arg.add(16 + 8 * i) as *const u32),
+                                std::ptr::read_unaligned(arg.add(20 + 8 * i) as *const u32),
+                            )
+                        })
+                        .collect();
+                    // The memfd device can only expose CONSECUTIVE guest pages at one index (page i of the mapping is
+                    // file page index/page + i).  A request whose page i is not named by reference first + i (or that
+                    // mixes domains) cannot be honoured by it: refused, like a gntdev that cannot map the grants.
+                    if refs.iter().enumerate().any(|(i, r)| r.0 != refs[0].0 || r.1 as u64 != gref + i as u64) {
+                        return -1;
+                    }
+                    d.refs.push(refs);
                     let index = gref * d.page;
                     std::ptr::write_unaligned(arg.add(8) as *mut u64, index);
                     d.log.push(DevEv::Map { gref, count, index });
@@ -485,11 +514,27 @@ fn run_op(cx: &mut Ctx, op: &[u128]) -> Option<bool> {
     }
 }
 
-fn ev_toks(evs: &[DevEv]) -> Vec<u128> {
+/// the domid the regions of a case are built with (coq/Spec/C17.v case_domid)
+fn case_domid(gbase: u64, page: u64) -> u32 {
+    ((gbase / page) % 5 + 1) as u32
+}
+
+fn ev_toks(evs: &[DevEv], refs: &[Vec<(u32, u32)>]) -> Vec<u128> {
     let mut v = Vec::new();
+    let mut k = 0;
     for e in evs {
         match *e {
-            DevEv::Map { gref, count, index } => v.extend([1, gref as u128, count as u128, index as u128]),
+            DevEv::Map { gref, count, index } => {
+                v.extend([1, gref as u128, count as u128, index as u128]);
+                // 3 n d0 r0 d1 r1 ...: the references the request named
+                if let Some(l) = refs.get(k) {
+                    v.extend([3, l.len() as u128]);
+                    for r in l {
+                        v.extend([r.0 as u128, r.1 as u128]);
+                    }
+                }
+                k += 1;
+            }
             DevEv::Unmap { index, count } => v.extend([2, index as u128, count as u128]),
             DevEv::Foreign { .. } => {}
         }
@@ -515,7 +560,7 @@ fn setup(case: &[Tok], out: &mut File) -> Option<Ctx> {
     }
     let range = match rkind {
         0 => MmapRange::new_unix(size, None, GuestAddress(gbase)),
-        k => MmapRange::new(size, Some(file_offset_of(fd, 0)), GuestAddress(gbase), [0, 1, 2, 0xA][k as usize], 0),
+        k => MmapRange::new(size, Some(file_offset_of(fd, 0)), GuestAddress(gbase), [0, 1, 2, 0xA][k as usize], case_domid(gbase, page)),
     };
     let region = match MmapRegion::<()>::from_range(range).ok().and_then(|r| GuestRegionMmap::new(r, GuestAddress(gbase)).ok()) {
         Some(r) => r,
@@ -539,7 +584,7 @@ fn observe(cx: &mut Ctx, out: &mut File, f: impl FnOnce(&mut Ctx) -> Option<bool
     writeln!(out, "S").unwrap(); // an operation starts
     cx.efault = false;
     let r = util::catch(|| f(cx));
-    let evs = dev_take();
+    let (evs, refs) = dev_take_named();
     let whole = cx.backing() == cx.shadow;
     let (rc, data) = match r {
         None => (2u128, whole),
@@ -548,7 +593,7 @@ fn observe(cx: &mut Ctx, out: &mut File, f: impl FnOnce(&mut Ctx) -> Option<bool
         Some(Some(d)) => (1, d && whole),
     };
     let mut v = vec![rc, data as u128, dev_live() as u128];
-    v.extend(ev_toks(&evs));
+    v.extend(ev_toks(&evs, &refs));
     writeln!(out, "O {}", crate::tok::show(&Tok::L(v))).unwrap();
 }
 
